@@ -71,7 +71,7 @@ THEOREMS = [
         "write_domain recLen_spec file_roundtrip_binary_domain file_roundtrip_bytes_domain sparse_auto_rule storedIdx_spec "
         "coo_view_correct write_sparse_eq_write_dense denseMat_entry sparse_input_reclen_wraps ensure_2d_shapes "
         "vector_input_is_row write_input_normalised plumb_spec write_replaces_file read_back_bits read_back_bits_subnormal "
-        "read_back_bits_finite read_back_needs_17 dir_matches_load_ascii"
+        "read_back_bits_finite read_back_needs_17 dir_matches_load_ascii sparse_views_ascii"
     ).split()
 ]
 TRUSTED = [
@@ -126,8 +126,8 @@ PARTIAL = (
     "sparse inputs = their ndarray (write_sparse_eq_write_dense), input normalisation and argument plumbing "
     "(write_input_normalised), the writer's true domain (file_roundtrip_binary_domain), float(decimal) = the printed "
     "double for digits >= 16 (read_back_bits*), dir on written ASCII files (dir_matches_load_ascii). Still not proved: "
-    "(1) the sparse=True / sparse=None views of ASCII files (cooOfPutsA, ADec.sparseAuto) are model definitions checked "
-    "by correspondence only; (2) that scipy's sp.find / tocoo / toarray compute what foundAt / cooToDense say (summation "
+    "(1) .toarray() of the sparse=True result is proved for binary files only (for ASCII files sparse_views_ascii gives "
+    "the triplets of printed decimals and the sparse=None rule; the rounding of each decimal is read_back_bits); (2) that scipy's sp.find / tocoo / toarray compute what foundAt / cooToDense say (summation "
     "order of duplicates, zero signs) and numpy's astype what Raw.toD says is tied by the wr / tod streams, not proved; "
     "write_sparse_eq_write_dense is about the ndarray denseMat (the found sums), which equals A.toarray() only up to the "
     "sign of zero parts and, from three duplicates of one position on, the last bit of the sum; (3) the automatic form "
@@ -162,7 +162,8 @@ MANIFEST = {
     "hypothesis that every value fits its field, which holds iff not (x<0 and |exp10|>=100) (fmtE_width, F3); with "
     "digits >= 16 the decimal rounds back to the bit-identical double, for every finite double incl. subnormals and "
     "signed zeros (read_back_bits, read_back_bits_subnormal, read_back_bits_finite; 16 significant digits are not enough: "
-    "read_back_needs_17); dir lists exactly what load returns (dir_matches_load_ascii; binary: C11). ascii_slicing, "
+    "read_back_needs_17); the sparse views of ASCII files are the same triplets / rule with printed decimals "
+    "(sparse_views_ascii); dir lists exactly what load returns (dir_matches_load_ascii; binary: C11). ascii_slicing, "
     "ascii_column_roundtrip_{dense,bigmat,nonbigmat} for every partition into strings; _sparse_col_stats yields exactly "
     "the maximal runs and the word count the readers consume to zero.",
     "level_note": "Tied, not proved: the models are tied to op4.py by the constants translator and by exact correspondence "
@@ -171,7 +172,7 @@ MANIFEST = {
     "write (wr stream: dtype, memory layout, dimensionality, mapping/list/single interfaces, scipy.sparse formats with "
     "duplicates, explicit zeros, unsorted indices). Library behaviour is modelled by what it computes and checked by "
     "correspondence only: sp.find / tocoo / toarray (summation order of duplicates), astype, np.allclose (automatic "
-    "form), struct, '%E', int(), float(). The sparse views of ASCII files are correspondence-only (see PARTIAL). Finding "
+    "form), struct, '%E', int(), float(). Finding "
     "F45 (int32 wrap of a 2 GiB dense record of a sparse input) is reproduced by the oracle in the thorough tier only. "
     "Trusted: Lean kernel; propext, Classical.choice, Quot.sound; the Python harness; CPython / numpy / scipy as listed.",
     "technique": "Lean 4 proof (induction over lines/strings/columns/matrices, omega on the packed header, bisection "
@@ -2189,6 +2190,14 @@ def replay(ctx, data):
     if not f:
         return None
     j = f["input"]
+    if f.get("family") == NEW_F45:
+        sc = _Scratch()
+        try:
+            before = len(ctx.failures)
+            _oracle_f45(ctx, op4, sc)
+            return dict(ctx.failures[-1]) if len(ctx.failures) > before else None
+        finally:
+            sc.close()
     if isinstance(j.get("variant"), dict):
         sc = _Scratch()
         try:
